@@ -163,6 +163,15 @@ class Check(FormulaCheck):
         nn = [x for x in items if x is not None]
         g = self.ev('TEXTJOIN(v_d,TRUE,v_a)', v_d=d, v_a=nested)
         self.expect('C15/TEXTJOIN-skip-blanks', g == d.join(nn), items=items, delimiter=d, got=g, expected=d.join(nn))
+        # the same list object named twice (and aliased inside a grid): its items are joined as often as they are named
+        alias = [x for x in items if x is not None] or ['q']
+        self.e.bind(v_l=alias, v_g=[alias, alias])
+        g = self.ev('CONCATENATE(v_l,v_l)')
+        self.expect('C15/CONCATENATE:same-host-list-named-twice', g == ''.join(alias) * 2, items=alias, got=g)
+        g = self.ev('CONCATENATE(v_g,"|",v_l)')
+        self.expect('C15/CONCATENATE:same-host-list-named-twice', g == ''.join(alias) * 2 + '|' + ''.join(alias), items=alias, got=g)
+        g = self.ev('TEXTJOIN(v_d,TRUE,v_l,"w",v_l)', v_d=d)
+        self.expect('C15/TEXTJOIN:same-host-list-named-twice', g == d.join(alias + ['w'] + alias), items=alias, delimiter=d, got=g)
         g = self.ev('TEXTJOIN(v_d,FALSE,v_a)', v_d=d, v_a=nested)
         self.expect('C15/TEXTJOIN-keep-blanks', g == d.join(x or '' for x in items), items=items, delimiter=d, got=g)
         for i, x in enumerate(items):
